@@ -427,6 +427,8 @@ func getIdentifierKeywordType(value string) models.TokenType {
 		return models.TokenTypeUntil
 	case "RESET":
 		return models.TokenTypeReset
+	case "RETURNING":
+		return models.TokenTypeReturning
 	default:
 		return models.TokenTypeUnknown
 	}
@@ -725,6 +727,8 @@ func getKeywordModelType(value string) models.TokenType {
 		return models.TokenTypeDate
 	case "TIMESTAMP":
 		return models.TokenTypeTimestamp
+	case "RETURNING":
+		return models.TokenTypeReturning
 	default:
 		return models.TokenTypeUnknown
 	}
